@@ -170,22 +170,29 @@ type LangID uint16
 // Derived languages not exactly supported are mapped to their primary part : for instance,
 // 'fr-be' is mapped to 'fr'
 func NewLangID(l Language) (LangID, bool) {
-	if i, ok := binarySearchLang(l, languagesInfos[:knownLangsCount]); ok {
-		return LangID(i), true
-	}
-	if i, ok := binarySearchLang(l, languagesInfos[knownLangsCount:]); ok {
-		return knownLangsCount + LangID(i), true
+	// an exact match, in either part of the table, has priority over
+	// the fallback to the primary part of the language
+	for _, exactOnly := range [2]bool{true, false} {
+		if i, ok := binarySearchLang(l, languagesInfos[:knownLangsCount], exactOnly); ok {
+			return LangID(i), true
+		}
+		if i, ok := binarySearchLang(l, languagesInfos[knownLangsCount:], exactOnly); ok {
+			return knownLangsCount + LangID(i), true
+		}
 	}
 	return 0, false
 }
 
-func binarySearchLang(l Language, records []languageInfo) (int, bool) {
+func binarySearchLang(l Language, records []languageInfo, exactOnly bool) (int, bool) {
 	// binary search
 	index := sort.Search(len(records), func(i int) bool {
 		return (records)[i].lang >= l
 	})
 	if index != len(records) && records[index].lang == l { // extact match
 		return index, true
+	}
+	if exactOnly {
+		return 0, false
 	}
 	if index == len(records) {
 		index--
